@@ -18,7 +18,9 @@ Harness:
   D. chains of nested function scopes (depth 2-4, the nested def at any top-level position of the
      enclosing body): (I) Model/Nested.v (entry = own locals unbound + the enclosing scope's final
      environment) vs supp's alternatives and E02 sites at every read of every level; the composed
-     theorem C01_nested_visible speaks about exactly that analysis."""
+     theorem C01_nested_visible speaks about exactly that analysis; (R) Model/NestedRun.v run_chain vs
+     CPython executing the instrumented chain (each level calls the next as its last statement)
+     under enumerated decisions, plus the instance of C01_chain_run_visible."""
 import ast
 import builtins
 import os
@@ -30,7 +32,7 @@ from props import reach_common as rc
 
 LEVEL = 'proof'
 ASSUMPTIONS = [
-    'one-scope theorem (any exits) proved and composed along chains of nested function scopes (C01_nested_visible; premise rt_env = Python LEGB rule, modelled); class namespaces, comprehension scopes, global/nonlocal, imports are covered by C05\'s ownership theorem and, end to end, by generator B executed under CPython (partial: not in the composed theorem)',
+    'one-scope theorem (any exits) proved and composed along chains of nested function scopes (C01_nested_visible; its LEGB premise rt_env is discharged for the executable chain semantics run_chain, C01_chain_run_visible, tied to CPython traces by part D); class namespaces, comprehension scopes, global/nonlocal, imports are covered by C05\'s ownership theorem and, end to end, by generator B executed under CPython (partial: not in the composed theorem)',
     'names created through exec/eval/globals()/locals()/setattr, match statements, PEP 695 type parameters, except*, del are outside the domain',
     'builtins = dir(builtins) of the running interpreter',
 ]
@@ -442,7 +444,39 @@ def render_nested(bodies, splits):
     return '\n'.join(out) + '\n', reads, binds
 
 
+def render_nested_instrumented(bodies, splits):
+    """the same chain for CPython: every function defines the next one before statement splits[k] of
+    its body and calls it as its last statement (bodies are already cut at the call point)"""
+    r = pygen.Renderer(True)
+
+    def level(k, ind):
+        body = bodies[k]
+        r.emit(ind - 1, 'def %s():' % ('main' if k == 0 else 'inner%d' % k))
+        if k + 1 < len(bodies):
+            j = splits[k]
+            r.body(body[:j], ind)
+            level(k + 1, ind + 1)
+            r.body(body[j:], ind)
+            r.emit(ind, 'inner%d()' % (k + 1))
+        else:
+            r.body(body, ind)
+            r.emit(ind, 'pass')
+    level(0, 1)
+    r.lines.append('def _go():')
+    r.lines.append('    main()')
+    return '\n'.join(r.lines) + '\n'
+
+
 NESTED_PRELUDE = rc.CHECK_PRELUDE + '''
+(* (R) for Model/NestedRun.v: CPython's trace of the chain (every function calls the next one as its
+   last statement) vs [run_chain], and the instance of theorem C01_chain_run_visible on it *)
+Definition check_chain (k : list cmd * list nat * trace) : bool :=
+  match k with
+  | (bodies, ds, obs) =>
+      let l := run_chain 4000 [] bodies renv0 (ds ++ zeros) in
+      trace_eqb (chain_trace l) obs && forallb level_visible l
+  end.
+
 (* (I) for Model/Nested.v: supp's alternatives at every read of the body [ci] nested in [outers],
    and the E02 sites among its reads *)
 Definition check_nested (k : list cmd * cmd * list (N * list alt) * list N) : bool :=
@@ -458,7 +492,9 @@ def part_d(ctx):
     """chains of nested function scopes: (I) Model/Nested.v vs supp at every level"""
     cov = ctx.coverage
     nchain = ctx.pick(60, 500)
+    cap = ctx.pick(12, 60)
     terms, meta = [], []
+    rterms, rmeta, rbad = [], [], []
     depth_hist = {}
     for k in range(nchain):
         depth = ctx.rng.choice([2, 2, 3, 3, 4])
@@ -501,9 +537,38 @@ def part_d(ctx):
             terms.append('([%s], %s, [%s], [%s])' % ('; '.join(pygen.body_coq(b) for b in bodies[:lvl]), pygen.body_coq(bodies[lvl]),
                                                     '; '.join(items), '; '.join(str(x) for x in e02s)))
             meta.append((src, lvl, bodies, splits))
+        # (R): cut every body at a call point behind the nested def, run under CPython
+        cuts = [ctx.rng.randint(splits[i], len(bodies[i])) for i in range(depth)]
+        tbodies = [bodies[i][:cuts[i]] or [('pass',)] for i in range(depth)]
+        tsplits = [min(splits[i], len(tbodies[i])) for i in range(depth)]
+        code = render_nested_instrumented(tbodies, tsplits)
+        try:
+            runs, _ex = rc.enumerate_decisions(rc.Oracle(code, 'func', cont=True), cap)
+        except SyntaxError as e:
+            ctx.violation('the instrumented chain does not compile: %s' % e, {'kind': 'harness-D', 'code': code}, found_input=False)
+            continue
+        for eff, log, err in runs:
+            if err:
+                rbad.append((code, 'instrumented chain raised %s' % err, eff))
+                continue
+            inner_ok = sum(1 for r_, v in log if v is not None and r_ > ranges[0][1])
+            ctx.count(('Dr', code, tuple(eff)), nontrivial=inner_ok > 0)
+            rterms.append('([%s], [%s], [%s])' % ('; '.join(pygen.body_coq(b) for b in tbodies), '; '.join('%d%%nat' % d for d in eff),
+                                                 '; '.join('(%d, %s)' % (r_, rc.alt_term(v)) for r_, v in log)))
+            rmeta.append((code, eff, log))
         if k < 1:
-            ctx.sample({'part': 'D', 'source': src, 'supp_alternatives': {str(a): b for a, b in obs['seen'].items()}})
-    bad = ctx.run_cases(rc.IMPORTS + ['Model.Nested'], NESTED_PRELUDE, 'check_nested', terms, shard=150)
+            ctx.sample({'part': 'D', 'source': src, 'supp_alternatives': {str(a): b for a, b in obs['seen'].items()},
+                        'instrumented': code, 'decisions': runs[-1][0], 'trace': runs[-1][1][:12]})
+    for code, what, eff in rbad[:3]:
+        ctx.violation(what, {'kind': 'harness-D', 'code': code, 'decisions': eff}, found_input=False)
+    bad = ctx.run_cases(rc.IMPORTS + ['Model.Nested', 'Model.NestedRun'], NESTED_PRELUDE, 'check_nested', terms, shard=150)
+    bad_r = ctx.run_cases(rc.IMPORTS + ['Model.Nested', 'Model.NestedRun'], NESTED_PRELUDE, 'check_chain', rterms, shard=300)
+    cov['D_executions'] = len(rterms)
+    cov['D_ref_disagreements'] = len(bad_r)
+    if bad_r:
+        code, eff, log = rmeta[bad_r[0]]
+        ctx.violation('(R) correspondence Model/NestedRun.v vs CPython (or the instance of C01_chain_run_visible) no longer checks on %d executions of chains of nested functions' % len(bad_r),
+                      {'kind': 'correspondence-ref-nested', 'theorem': 'run_chain semantics / C01_chain_run_visible', 'code': code, 'decisions': eff, 'trace': log}, found_input=False)
     cov['D_chains'] = nchain
     cov['D_chain_depths'] = {str(a): b for a, b in sorted(depth_hist.items())}
     cov['D_levels_compared'] = len(terms)
